@@ -1,0 +1,122 @@
+//go:build verif
+
+// Contracts for package ctree, checked by /verif/gvc (comment-only file,
+// compiled only under the build tag "verif"). Node-local contracts: what one
+// node does with its own value/children and which recursive calls it makes;
+// the whole-tree view used by clients (/verif/contracts/stubs/ctree_abstract.gvc)
+// follows by structural induction, which is not machine-checked.
+package ctree
+
+// A node is a branch (its leafBranch holds the child map), a leaf (any other
+// non-nil value) or empty (nil).
+//@ pred IsBranch(t *Tree) := isa(t.leafBranch.(branch))
+//@ pred Kids(t *Tree) := t.leafBranch.(branch)
+//@ pred IsLeaf(t *Tree) := t.leafBranch != nil && !IsBranch(t)
+// No branch holds a nil child map or a nil child.
+//@ pred TreeWf() := forall x ref {heapsel("Tree.leafBranch", x)} :: typed(x, "Tree") && isa(heapsel("Tree.leafBranch", x).(branch)) ==>
+//@   heapsel("Tree.leafBranch", x).(branch) != nil
+//@   && (forall k string :: has(heapsel("Tree.leafBranch", x).(branch), k) ==> heapsel("Tree.leafBranch", x).(branch)[k] != nil)
+//@ pred Tail(path []string) := sub(view(path), 1, len(path))
+
+// leafBranch (and the child map it may hold) is only touched under the node's own lock.
+//@ owner Tree.leafBranch lock mu
+
+// Visitors may keep the path they are handed: it must not be written afterwards.
+//@ ghost visits int
+//@ ghost lastVisited ref
+//@ ghost visitedT set[ref]
+//@ func param f in (*Tree).enumerateChildren (path, l, val)
+//@   freezes path
+//@   effect visits := visits + 1
+//@   effect lastVisited := l
+//@ func param f in (*Tree).walkInternal (path, l, val)
+//@   freezes path
+//@   effect visits := visits + 1
+//@   effect lastVisited := l
+//@ func param f in (*Tree).walkInternalSorted (path, l, val)
+//@   freezes path
+//@   effect visits := visits + 1
+//@   effect lastVisited := l
+
+//@ func DetachedLeaf
+//@   props C09 C12
+//@   allocates Tree
+//@   ensures fresh(res0) && res0 != nil && res0.leafBranch == val
+
+//@ func (*Leaf).Value
+//@   props C09 C10 C12
+//@   ensures (l == nil ==> res0 == nil) && (l != nil ==> res0 == l.leafBranch)
+//@ func (*Leaf).Update
+//@   props C09 C10 C12
+//@   requires l != nil
+//@   modifies l.leafBranch
+//@   ensures l.leafBranch == val
+
+// A stored value is never itself a child map (the package's private branch type).
+//@ pred PlainValue(v any) := !isa(v.(branch))
+
+//@ func newBranch
+//@   props C09 C10 C12
+//@   requires TreeWf() && PlainValue(value)
+//@   allocates Tree
+//@   ensures res0 != nil && fresh(res0) && TreeWf()
+//@   ensures [leaf-at-the-end C09] len(path) == 0 ==> res0.leafBranch == value
+//@   ensures [one-child-chain C09] len(path) > 0 ==> IsBranch(res0) && Kids(res0) != nil && has(Kids(res0), path[0]) && len(Kids(res0)) == 1
+//@     && Kids(res0)[path[0]] != nil && fresh(Kids(res0)[path[0]])
+
+//@ func (*Tree).isBranch
+//@   props C09 C10 C12
+//@   requires t != nil && held(t.mu)
+//@   ensures res0 <==> IsBranch(t)
+
+//@ func (*Tree).IsBranch
+//@   props C09 C10 C12
+//@   ensures t == nil ==> !res0
+//@   ensures t != nil ==> (res0 <==> IsBranch(t))
+
+//@ func (*Tree).Value
+//@   props C09 C10 C12
+//@   ensures t == nil ==> res0 == nil
+//@   ensures t != nil ==> res0 == ite(IsBranch(t), nil, t.leafBranch)
+
+// terminalAdd: a branch is never overwritten by a value (fails unchanged); otherwise the value is stored.
+//@ func (*Tree).terminalAdd
+//@   props C09 C10 C12
+//@   requires t != nil && PlainValue(value) && TreeWf()
+//@   modifies t.leafBranch
+//@   ensures [tree-stays-wf] TreeWf()
+//@   ensures [no-leaf-over-branch C09] old(IsBranch(t)) ==> res0 != nil && t.leafBranch == old(t.leafBranch)
+//@   ensures [stores C09] !old(IsBranch(t)) ==> res0 == nil && t.leafBranch == value
+
+// slowAdd runs with the node's WRITE lock held, after the reader/writer lock
+// exchange: whatever another goroutine put there meanwhile is kept - an existing
+// child is never replaced, a leaf is never turned into a branch.
+//@ func (*Tree).slowAdd
+//@   props C09 C10 C12
+//@   requires t != nil && wheld(t.mu) && len(path) >= 1 && TreeWf() && PlainValue(value)
+//@   modifies *
+//@   allocates Tree
+//@   ensures [tree-stays-wf] TreeWf()
+//@   ensures [leaf-is-not-crossed C09] old(IsLeaf(t)) ==> res0 != nil
+//@   assert at call (*Tree).Add#0: [existing-child-is-kept C10 C09] arg0 != nil && IsBranch(t) && has(Kids(t), path[0]) && arg0 == Kids(t)[path[0]]
+//@     && (old(IsBranch(t)) && old(has(Kids(t), path[0])) ==> arg0 == old(Kids(t)[path[0]]))
+//@     && (old(IsBranch(t)) ==> (forall k string :: old(has(Kids(t), k)) ==> has(Kids(t), k) && Kids(t)[k] == old(Kids(t)[k])))
+//@     && view(arg1) == Tail(path) && arg2 == value && TreeWf()
+
+// intermediateAdd: descend under the read lock; when the child is missing,
+// exchange it for the write lock and let slowAdd re-check.
+//@ func (*Tree).intermediateAdd
+//@   props C09 C10 C12
+//@   requires t != nil && len(path) >= 1 && TreeWf() && PlainValue(value)
+//@   modifies *
+//@   allocates Tree
+//@   ensures [tree-stays-wf] TreeWf()
+//@   assert at call (*Tree).slowAdd#0: [write-lock-held-for-the-slow-path C10] wheld(t.mu) && arg0 == t && arg1 == path && arg2 == value
+//@   assert at call (*Tree).Add#0: [descend-under-read-lock C10 C09] rheld(t.mu) && arg0 != nil && arg0 == Kids(t)[path[0]] && view(arg1) == Tail(path) && arg2 == value
+
+//@ func (*Tree).Add
+//@   props C09 C10 C12
+//@   requires t != nil && TreeWf() && PlainValue(value)
+//@   modifies *
+//@   allocates Tree
+//@   ensures [tree-stays-wf] TreeWf()
